@@ -226,6 +226,8 @@ type stateA struct {
 	ov        []kvDelta // tracked stores: difference against the background chain of the same level
 	chainHash string    // hash of the full content of the tracked stores
 	fl        []flight  // in-flight submissions, sorted by key
+	dm        *signaller.Signaller // the daemon as the last poll left it (immutable; nil before the first poll)
+	dmKey     string               // daemonMemoryKey(dm)
 	miss      map[string]int // consecutive polls at which the signal was requested and absent from the answer (immutable)
 	p         *pnode
 }
@@ -238,6 +240,10 @@ func (s *stateA) key() string {
 		sb.WriteString(f.key())
 	}
 	sb.WriteString(missKey(s.miss))
+	if s.dmKey != "" {
+		sb.WriteString("|daemon:")
+		sb.WriteString(s.dmKey)
+	}
 	return sb.String()
 }
 
@@ -557,6 +563,7 @@ func (x *workerA) otherStoresHash(ctx sdk.Context) string {
 // ---- the two sub-steps -------------------------------------------------------------------------------
 
 type pollInfo struct {
+	daemon *signaller.Signaller // the daemon after this poll
 	req    []string          // requested signal ids, sorted
 	given  map[string]answer // answer per requested id
 	menus  [][]string
@@ -592,7 +599,7 @@ func (x *workerA) view(ctx sdk.Context, c *CfgA) chainView {
 // pollOnce runs one daemon poll on ctx (read-only) with the given choice vector and judges it.
 // It returns the emitted submission (nil if none) and the number of requested signals with the
 // sizes of their menus.
-func (x *workerA) pollOnce(ctx sdk.Context, c *CfgA, pend map[string]bool, choice []int, now int64, out *stepOut) (sub *submitter.SignalPriceSubmission, pi pollInfo) {
+func (x *workerA) pollOnce(ctx sdk.Context, c *CfgA, prev *signaller.Signaller, pend map[string]bool, choice []int, now int64, out *stepOut) (sub *submitter.SignalPriceSubmission, pi pollInfo) {
 	var menuSizes []int
 	var chosen string
 	defer func() { pi.sizes, pi.chosen = menuSizes, chosen }()
@@ -602,7 +609,14 @@ func (x *workerA) pollOnce(ctx sdk.Context, c *CfgA, pend map[string]bool, choic
 		pm.Store(id, struct{}{})
 	}
 	ch := make(chan submitter.SignalPriceSubmission, 300)
-	sg := signaller.New(chainQuerier{x.qs, ctx}, ps, time.Duration(pollSeconds)*time.Second, ch, x.lg, c.val().ValAddress, pm, shippedStartPct, shippedOffsetPct)
+	var sg *signaller.Signaller
+	if prev == nil {
+		sg = signaller.New(chainQuerier{x.qs, ctx}, ps, time.Duration(pollSeconds)*time.Second, ch, x.lg, c.val().ValAddress, pm, shippedStartPct, shippedOffsetPct)
+	} else {
+		sg = cloneDaemon(prev) // the daemon object persists across polls; prev itself belongs to the parent state
+		sg.VerifRebind(chainQuerier{x.qs, ctx}, ps, ch, pm)
+	}
+	pi.daemon = sg
 	res := sg.VerifPoll()
 	var subs []submitter.SignalPriceSubmission
 	for len(ch) > 0 {
@@ -1023,7 +1037,8 @@ func searchA(cfgs []*CfgA, deadline time.Time, nworkers int) []*resultA {
 							}
 							if allowed {
 								var out stepOut
-								sub, pi := x.pollOnce(ctx, c, pend, choice, now, &out)
+								sub, pi := x.pollOnce(ctx, c, it.s.dm, pend, choice, now, &out)
+								dk := daemonMemoryKey(pi.daemon)
 								localPoll++
 								if first {
 									pi0 = pi
@@ -1041,7 +1056,7 @@ func searchA(cfgs []*CfgA, deadline time.Time, nworkers int) []*resultA {
 									}
 								} else if sub == nil {
 									lo["poll:no-submission"]++
-									children = append(children, &stateA{ov: it.s.ov, chainHash: it.s.chainHash, fl: it.s.fl, miss: nm, p: &pnode{it.s.p, ev}})
+									children = append(children, &stateA{ov: it.s.ov, chainHash: it.s.chainHash, fl: it.s.fl, miss: nm, dm: pi.daemon, dmKey: dk, p: &pnode{it.s.p, ev}})
 								} else {
 									lo["poll:submission"]++
 									lo[fmt.Sprintf("poll:submission-of-%d-signals", len(sub.SignalPrices))]++
@@ -1051,7 +1066,7 @@ func searchA(cfgs []*CfgA, deadline time.Time, nworkers int) []*resultA {
 										if len(nf) > 1 {
 											lo["poll:second-submission-while-one-in-flight"]++
 										}
-										children = append(children, &stateA{ov: it.s.ov, chainHash: it.s.chainHash, fl: nf, miss: nm, p: &pnode{it.s.p, fmt.Sprintf("%s:lat%d", ev, d)}})
+										children = append(children, &stateA{ov: it.s.ov, chainHash: it.s.chainHash, fl: nf, miss: nm, dm: pi.daemon, dmKey: dk, p: &pnode{it.s.p, fmt.Sprintf("%s:lat%d", ev, d)}})
 									}
 								}
 							}
@@ -1091,7 +1106,7 @@ func searchA(cfgs []*CfgA, deadline time.Time, nworkers int) []*resultA {
 							}
 						} else {
 							d := x.dumpTracked(nctx)
-							ch := &stateA{ov: diffDump(d, bn), chainHash: hashDump(d), fl: rest, miss: it.s.miss, p: &pnode{it.s.p, ev}}
+							ch := &stateA{ov: diffDump(d, bn), chainHash: hashDump(d), fl: rest, miss: it.s.miss, dm: it.s.dm, dmKey: it.s.dmKey, p: &pnode{it.s.p, ev}}
 							if ch.chainHash[0] == '0' && ch.chainHash[1] < '4' { // deterministic 1/64 subset: harness self-check
 								localSelf++
 								if x.otherStoresHash(nctx) != bgNextOther[it.ci] {
@@ -1260,6 +1275,7 @@ func replayA(c *CfgA, path []string) (last []viol, outs []string, finalKey strin
 	ctx := c.build(x.w)
 	var fl []flight
 	var miss map[string]int
+	var dm *signaller.Signaller
 	for _, ev := range path {
 		tick, kind, choice, lat := parseEv(ev)
 		atomic.StoreInt64(&clockA, wall0+int64(tick))
@@ -1270,7 +1286,7 @@ func replayA(c *CfgA, path []string) (last []viol, outs []string, finalKey strin
 			pend := (&stateA{fl: fl}).pending()
 			// translate the named choice into a vector over the sorted requested ids: probe first
 			var probe stepOut
-			_, pi0 := x.pollOnce(ctx, c, pend, nil, wall0+int64(tick), &probe)
+			_, pi0 := x.pollOnce(ctx, c, dm, pend, nil, wall0+int64(tick), &probe)
 			ids := pi0.req
 			vec := make([]int, len(ids))
 			for i, id := range ids {
@@ -1284,7 +1300,8 @@ func replayA(c *CfgA, path []string) (last []viol, outs []string, finalKey strin
 					}
 				}
 			}
-			sub, pi := x.pollOnce(ctx, c, pend, vec, wall0+int64(tick), &out)
+			sub, pi := x.pollOnce(ctx, c, dm, pend, vec, wall0+int64(tick), &out)
+			dm = pi.daemon
 			miss = nextMiss(miss, pi.req, pi.given)
 			if sub != nil && len(out.viols) == 0 {
 				if lat < 0 {
@@ -1297,6 +1314,6 @@ func replayA(c *CfgA, path []string) (last []viol, outs []string, finalKey strin
 		last = out.viols
 		outs = append(outs, strings.Join(out.labels, " "))
 	}
-	finalKey = (&stateA{chainHash: hashDump(x.dumpTracked(ctx)), fl: fl, miss: miss}).key()
+	finalKey = (&stateA{chainHash: hashDump(x.dumpTracked(ctx)), fl: fl, miss: miss, dmKey: daemonMemoryKey(dm)}).key()
 	return
 }
